@@ -21,11 +21,12 @@
 import ast
 import json
 import os
+import re
 import shutil
 
 import common
 import statuslib
-from statuslib import fname, tname, size_of, CK_MODEL
+from statuslib import tname, size_of, CK_MODEL, content_of, NS
 
 META = {
     'property': 'C10',
@@ -91,6 +92,24 @@ META = {
 # committed to /repo: set this to True (the model then uses `depChangedRepaired`, for which `C10_changed_repaired`
 # proves the full statement outside the F-C10 path) and turn the `open:` line of readded-dep-stale-state into `fixed:`.
 READDED_FIX_APPLIED = True
+
+# file names: style of the case (`fstyle`): plain, with a space, with braces (what `%(dependencies)s` joins by a space and
+# what str.format would read as a field).  One process evaluates one case at a time: the style is a module global.
+FILE_STYLES = ['f%d', 'f %d', 'f{%d}']
+FILE_RES = [re.compile(r'f(\d+)'), re.compile(r'f (\d+)'), re.compile(r'f\{(\d+)\}')]
+_FSTYLE = 0
+
+
+def fname(p):
+    return FILE_STYLES[_FSTYLE] % p
+
+
+def split_names(text):
+    """the file names in a `' '.join(names)` substitution (names may contain a space): (names, rest)"""
+    names = ['f' + FILE_STYLES[_FSTYLE][1:] % int(m) for m in FILE_RES[_FSTYLE].findall(text)]
+    rest = FILE_RES[_FSTYLE].sub('', text).strip()
+    return names + ([rest] if rest else [])
+
 
 SHARED_TAG = 7
 OBS_PY = 'obs.jsonl'
@@ -208,6 +227,19 @@ class World(statuslib.World):
         self.shared_kw = {'tag': SHARED_TAG}
         self.fmt = 'old'          # DOIT_CONFIG['action_string_formatting']
 
+    def write(self, p, cid, mtime):
+        with open(fname(p), 'w') as f:
+            f.write(content_of(cid))
+        os.utime(fname(p), ns=(mtime * NS, mtime * NS))
+
+    def touch(self, p, mtime):
+        if os.path.exists(fname(p)):
+            os.utime(fname(p), ns=(mtime * NS, mtime * NS))
+
+    def delete(self, p):
+        if os.path.exists(fname(p)):
+            os.remove(fname(p))
+
     def _effect(self, key):
         world = self
 
@@ -223,13 +255,14 @@ class World(statuslib.World):
                     return 'file_dep f0'         # a str result: no values, nothing is delivered
                 if dl.get('kind') == 'none':
                     return None
-                out = {'file_dep': [fname(p) for p in dl.get('deps', [])],
-                       'task_dep': [tname(u) for u in dl.get('tasks', [])]}
+                out = {}
+                if dl.get('junk'):
+                    out['junk'] = 1              # keys update_deps does not know are ignored (first in the dict)
+                    out['setup'] = ['nosuchtask']
+                out['file_dep'] = [fname(p) for p in dl.get('deps', [])]
+                out['task_dep'] = [tname(u) for u in dl.get('tasks', [])]
                 if dl.get('uptodate') is not None:
                     out['uptodate'] = [bool(b) for b in dl['uptodate']]
-                if dl.get('junk'):
-                    out['junk'] = 1              # keys update_deps does not know are ignored
-                    out['setup'] = ['nosuchtask']
                 return out
             if pl.get('vid') is not None:
                 return vals_of(pl['vid'])
@@ -394,11 +427,11 @@ def read_obs():
                     if k == 't':
                         r['t'] = int(v)
                     elif k == 'C':
-                        r['changed'] = v.split()
+                        r['changed'] = split_names(v)
                     elif k == 'D':
-                        r['dependencies'] = v.split()
+                        r['dependencies'] = split_names(v)
                     elif k == 'T':
-                        r['targets'] = v.split()
+                        r['targets'] = split_names(v)
                     elif k.startswith('A:'):
                         try:
                             r['args'][k[2:]] = ast.literal_eval(v)
@@ -409,12 +442,18 @@ def read_obs():
     return out
 
 
+def set_fstyle(case):
+    global _FSTYLE
+    _FSTYLE = int(case.get('fstyle') or 0)
+
+
 def run_history(case):
     """execute the history on the tree under test (cwd = empty scratch dir); one observation dict per op"""
     common.use_repo()
     w = World(case['backend'], case['checker'], case['ntasks'], case['npaths'])
     w.scramble = int(case.get('scramble') or 0)
     w.fmt = case.get('fmt') or 'old'
+    set_fstyle(case)
     obs = []
     for op in case['ops']:
         kind = op[0]
@@ -569,7 +608,8 @@ def sort_paths(l):
 def paths_of(names):
     out = []
     for n in names:
-        out.append(int(n[1:]) if n[:1] == 'f' and n[1:].isdigit() else n)
+        m = FILE_RES[_FSTYLE].fullmatch(n) if isinstance(n, str) else None
+        out.append(int(m.group(1)) if m else n)
     return out
 
 
@@ -593,6 +633,7 @@ class Translation(object):
 
 
 def translate(case, obs):
+    set_fstyle(case)
     tr = Translation()
     ck = ['checker', CK_MODEL[case['checker']]]
     tr.model.append(ck)
@@ -811,6 +852,7 @@ def _def_at(case, i, t):
 
 
 def _judge(case, obs, tr, msteps, psteps, vsteps, v):
+    set_fstyle(case)
     for o in obs:
         if o['kind'] == 'run':
             v.count('run:' + (o['op'][1].get('par') or 'serial'))
@@ -840,8 +882,14 @@ def _judge(case, obs, tr, msteps, psteps, vsteps, v):
         if predicted or earlier:
             v.count('skipped:crash-predicted-by-model')
         else:
-            v.divergence = v.divergence or (ci, 'doit died with %s; the model does not crash there' % exc,
-                                            (stderr or '').strip().split('\n')[-3:], 'no crash')
+            tail = (stderr or '').strip().split('\n')[-3:]
+            if any('error_msg.format(dep)' in l for l in tail):
+                # get_status formats the "Dependent file ... does not exist" message twice (open finding)
+                v.violations.append({'kind': 'crash', 'at_op': ci, 'exception': exc, 'stderr': tail,
+                                     'fstyle': int(case.get('fstyle') or 0),
+                                     'what': 'doit died with a %s traceback while reporting a missing file_dep: %s' % (exc, tail)})
+            else:
+                v.divergence = v.divergence or (ci, 'doit died with %s; the model does not crash there' % exc, tail, 'no crash')
     first_exec = {}
     # ---- K: status + kwargs
     for idx, i, t, oc, kw, always in tr.selects:
@@ -872,6 +920,7 @@ def _judge(case, obs, tr, msteps, psteps, vsteps, v):
             dd_ = norm_def(_def_at(case, i, t))
             if kw.get('cmd'):
                 v.count('cmd-action-string-formatting:' + (case.get('fmt') or 'old'))
+            v.count('file-names:' + ['plain', 'with a space', 'with braces'][int(case.get('fstyle') or 0)])
             if dd_['pathobj']:
                 v.count('file_dep/targets-written-as-pathlib:' + dd_['pathobj'])
             if dd_['ga_list']:
@@ -1017,7 +1066,16 @@ def _sig_readded(w):
             and v['observed']['targets'] == v.get('targets'))
 
 
-SIGNATURES = {'changed-empty-on-false-uptodate': _sig_false_uptodate,
+def _sig_missing_dep_braces(w):
+    """doit dies inside get_status on `error_msg.format(dep)` (second formatting of the message) and the file names of
+    the history contain braces"""
+    v = w.get('violation') or {}
+    return (v.get('kind') == 'crash' and v.get('fstyle') == 2 and v.get('exception') in ('IndexError', 'KeyError', 'ValueError')
+            and any('error_msg.format(dep)' in l for l in v.get('stderr') or []))
+
+
+SIGNATURES = {'missing-dep-with-braces-traceback': _sig_missing_dep_braces,
+              'changed-empty-on-false-uptodate': _sig_false_uptodate,
               }
 
 
@@ -1025,8 +1083,10 @@ SIGNATURES = {'changed-empty-on-false-uptodate': _sig_false_uptodate,
 # rendering / shrinking
 
 def render(case):
+    set_fstyle(case)
     out = ['backend=%s checker=%s tasks=%d files=%d%s' % (case['backend'], case['checker'], case['ntasks'], case['npaths'],
-                                                         ' action_string_formatting=%s' % case['fmt'] if case.get('fmt') else '')]
+                                                         (' action_string_formatting=%s' % case['fmt'] if case.get('fmt') else '') +
+                                                         (' file f<i> is named %r' % FILE_STYLES[case['fstyle']] if case.get('fstyle') else ''))]
     for op in case['ops']:
         k = op[0]
         if k == 'redefine':
@@ -1090,7 +1150,7 @@ def render(case):
 
 
 def strip(case):
-    return {k: case[k] for k in ('backend', 'checker', 'ntasks', 'npaths', 'ops', 'scramble', 'fmt') if k in case}
+    return {k: case[k] for k in ('backend', 'checker', 'ntasks', 'npaths', 'ops', 'scramble', 'fmt', 'fstyle') if k in case}
 
 
 def unknown_violations(v):
@@ -1319,6 +1379,9 @@ def gen_case(rng, parallel=False):
     case = {'backend': rng.choice(statuslib.BACKENDS), 'checker': rng.choice(['md5', 'md5', 'timestamp']),
             'ntasks': ntasks, 'npaths': npaths, 'ops': ops,
             'scramble': rng.choice([0, rng.randrange(1, 90000)])}
+    fs = rng.choice([0, 0, 1, 2])
+    if fs:
+        case['fstyle'] = fs
     fmt = rng.choice(['old', 'old', 'new', 'both'])
     if fmt != 'old':
         case['fmt'] = fmt
